@@ -18,7 +18,7 @@ func (g *gen) aclRequest(targets []string, mode int) *Req {
 	r := g.r
 	rq := &Req{HasSub: true, Mode: mode, UpdatesOnly: r.Chance(1, 5)}
 	pf := &GPath{}
-	switch r.Pick(50, 42, 3, 2, 2, 1) {
+	switch r.Pick(58, 34, 3, 2, 2, 1) {
 	case 0:
 		pf.Target = "*"
 	case 1:
@@ -179,7 +179,8 @@ func tableCases(emit func(Case)) int {
 }
 
 func nontrivial(c *Case) bool {
-	// at least one update response reached the user and the un-ACL'd run sent more
+	// the ACL made a difference: the un-ACL'd run delivered updates and the run
+	// with the ACL delivered strictly fewer (filtered, or the RPC was rejected)
 	n1, n2 := 0, 0
 	for _, o := range c.R1.Obs {
 		for _, r := range o.Group {
@@ -197,13 +198,13 @@ func nontrivial(c *Case) bool {
 			}
 		}
 	}
-	return c.HasACL && n1 > 0 && n2 > n1
+	return c.HasACL && n2 > 0 && n2 > n1
 }
 
 func main() {
 	o := vh.ParseFlags()
 	quietLogs()
-	meta := vh.NewMeta("corpus cases; table: a fixed three-target script (snapshot, then update, subtree delete and whole-target removal per target) under all 8 allow/deny row sets x modes {STREAM,ONCE,POLL} x updates_only x target {*,t1,t2}; random: ACL table over 2 users x 3 targets (allow / deny / missing row), user u1/u2/unknown/absent, ACL installed or not, 2-9 initial notifications, one request (STREAM 58% / ONCE / POLL / unknown mode; target * or single, 1-3 subscription paths), STREAM: 2-10 (thorough 2-17) streamed cache operations (single/multi update, atomic, subtree delete, target removal) across allowed and denied targets, POLL: 0-3 triggers with edits. Every case is run with the ACL and without. distinct = distinct inputs; non-trivial = ACL installed, at least one update delivered, and the un-ACL'd run delivered strictly more")
+	meta := vh.NewMeta("corpus cases; table: a fixed three-target script (snapshot, then update, subtree delete and whole-target removal per target) under all 8 allow/deny row sets x modes {STREAM,ONCE,POLL} x updates_only x target {*,t1,t2}; random: ACL table over 2 users x 3 targets (allow / deny / missing row), user u1/u2/unknown/absent, ACL installed or not, 2-9 initial notifications, one request (STREAM 58% / ONCE / POLL / unknown mode; target * or single, 1-3 subscription paths), STREAM: 2-10 (thorough 2-17) streamed cache operations (single/multi update, atomic, subtree delete, target removal) across allowed and denied targets, POLL: 0-3 triggers with edits. Every case is run with the ACL and without. distinct = distinct inputs; non-trivial = ACL installed, the un-ACL'd run delivered at least one update and the run with the ACL strictly fewer (filtered or rejected)")
 	e := &emitter{dir: o.Out, cf: newCaseFile(), meta: meta, limit: 250, require: "Subscribe.C07Check", twice: true, nontriv: nontrivial}
 
 	if o.Replay != "" {
